@@ -293,16 +293,17 @@ def rust_matching(case):
 
 
 def rust_ref_fn(k, case):
-    """the literal Rust match: a tuple of the arguments (strings/slices through AsRef), one arm per alternative with the
+    """(the parameters are called r_<i>: no binding of the generated patterns can shadow them)
+    the literal Rust match: a tuple of the arguments (strings/slices through AsRef), one arm per alternative with the
     same patterns, the guard in parentheses, and == / != for eq!/ne! operands"""
     sig, s = case["sig"], case["surface"]
-    params = ", ".join(f"a{i}: {TYPES[t][1]}" for i, t in enumerate(sig))
+    params = ", ".join(f"r_{i}: {TYPES[t][1]}" for i, t in enumerate(sig))
     alts = alts_of(s)
     if not alts:
         return f"fn ref_{k}({params}) -> bool {{ true }}\n"
     scr = []
     for i, t in enumerate(sig):
-        scr.append(f"AsRef::<str>::as_ref(a{i})" if t in STRLIKE else f"AsRef::<[i32]>::as_ref(a{i})" if t in SEQLIKE else f"a{i}")
+        scr.append(f"AsRef::<str>::as_ref(r_{i})" if t in STRLIKE else f"AsRef::<[i32]>::as_ref(r_{i})" if t in SEQLIKE else f"r_{i}")
     arms = ""
     for alt in alts:
         pats = "".join(("_" if p[0] == "cmp" else rust_pat(p)) + ", " for p in alt)
@@ -311,7 +312,7 @@ def rust_ref_fn(k, case):
             conds.append("(" + rust_guard(s["guard"]) + ")")
         for i, p in enumerate(alt):
             if p[0] == "cmp":
-                conds.append(f"(a{i} {'!=' if p[1] else '=='} {rust_operand(sig[i], p[2])})")
+                conds.append(f"(r_{i} {'!=' if p[1] else '=='} {rust_operand(sig[i], p[2])})")
         arms += f"        ({pats})" + (" if " + " && ".join(conds) if conds else "") + " => true,\n"
     return (f"fn ref_{k}({params}) -> bool {{\n    match ({''.join(x + ', ' for x in scr)}) {{\n{arms}        _ => false,\n    }}\n}}\n")
 
@@ -634,6 +635,19 @@ def directed_cases():
                 groups = [("tuple", a) for a in alts]
                 surface = {"form": "simple" if len(alts) == 1 else "disj", "pats": groups, "guard": g}
                 out.append({"sig": ["int", "int"], "surface": surface, "_form": "directed"})
+    # a binding that is called like one of the identifiers the expansion itself introduces (closure parameters a<i>, eq!/ne!
+    # bindings m<i>, hoisted operand locals l<k>), next to an eq!/ne! operand: the name of a binding is irrelevant to a Rust match
+    for name in ("a0", "a1", "m0", "m1", "l0", "l1", "reporter"):
+        bn = ("bind", name)
+        for ne in (False, True):
+            cm = ("cmp", ne, vint(3))
+            for alts, g in (([[cm, bn]], None), ([[bn, cm]], None), ([[cm, bn]], c("OGe", v(name), k(0))), ([[bn, cm]], c("OLt", v(name), k(7))),
+                            ([[cm, bn], [bn, ("cmp", ne, vint(7))]], c("OGe", v(name), k(0)))):
+                if g is None:
+                    out.append({"sig": ["int", "int"], "_form": "directed", "surface": {"form": "simple", "pats": alts[0], "guard": None}})
+                else:
+                    out.append({"sig": ["int", "int"], "_form": "directed",
+                                "surface": {"form": "simple" if len(alts) == 1 else "disj", "pats": [("tuple", a) for a in alts], "guard": g}})
     cg = [None, ("const", True), ("or", ("const", False), ("const", True)), ("and", ("const", True), ("const", True))]
     for g in cg:
         for a, bb in ((False, False), (False, True), (True, False), (True, True)):
